@@ -27,6 +27,10 @@ def ite_val(c, a, b):
     if isinstance(a, VTuple) and isinstance(b, VTuple) and len(a.items) == len(b.items):
         return VTuple([ite_val(c, x, y) for x, y in zip(a.items, b.items)])
     if isinstance(a, VBytes) and isinstance(b, VBytes):
+        if a._term is not None and b._term is not None:
+            if a._term.eq(b._term):
+                return a
+            return VBytes.from_term(z3.If(c, a._term, b._term))
         return VBytes(z3.If(c, a.len, b.len), lambda i: z3.If(c, a.at(i), b.at(i)))
     if isinstance(a, VNone) or isinstance(b, VNone) or isinstance(a, VOpt) or isinstance(b, VOpt):
         inner = None
